@@ -610,3 +610,29 @@ M('c14g-assembled-line-keeps-ending', 'C14', 'break', 'htp/htp_multipart.c',
 M('c14g-kept-copy-uses-untrimmed-length', 'C14', 'break', 'htp/htp_multipart.c',
   '                        part->parser->pending_header_line = bstr_dup_mem(data, len);\n                        if (part->parser->pending_header_line == NULL) return HTP_ERROR;\n                    }\n                } else {',
   '                        part->parser->pending_header_line = bstr_dup_mem(data, part->len);\n                        if (part->parser->pending_header_line == NULL) return HTP_ERROR;\n                    }\n                } else {', 'C14.g')
+
+# ---------------- C01.k
+M('c01k-gzip-probe-memchr-underflow', 'C01', 'break', 'htp/htp_decompressors.c',
+  '            size_t len;\n            for (len = 10; len < data_len && data[len] != \'\\0\'; len++);',
+  '            const unsigned char *nul = memchr(data + 10, \'\\0\', data_len - 10);\n            size_t len = (nul != NULL) ? (size_t) (nul - data) : data_len;', 'C01.k')
+M('c01k-cookie-window-one-too-long', 'C01', 'break', 'htp/htp_cookies.c',
+  'htp_parse_single_cookie_v0(connp, data + start, pos - start)', 'htp_parse_single_cookie_v0(connp, data + start, pos - start + 1)', 'C01.k')
+
+# ---------------- wave-7 rules
+M('c16h-method-length-precheck', 'C16', 'break', UT,
+  '    // TODO Optimize using parallel matching, or something similar.\n',
+  '    size_t mlen = bstr_len(method);\n    if ((mlen < 3) || (mlen > 15)) return HTP_M_UNKNOWN;\n', 'C16.h')
+M('c16h-method-length-precheck-exact-keep', 'C16', 'keep', UT,
+  '    // TODO Optimize using parallel matching, or something similar.\n',
+  '    size_t mlen = bstr_len(method);\n    if ((mlen < 3) || (mlen > 16)) return HTP_M_UNKNOWN;\n')
+M('c09f-close-tests-wrong-direction', 'C09', 'break', 'htp/htp_connection_parser.c',
+  '    if (connp->out_status != HTP_STREAM_ERROR)\n        connp->out_status = HTP_STREAM_CLOSED;', '    if (connp->in_status != HTP_STREAM_ERROR)\n        connp->out_status = HTP_STREAM_CLOSED;', 'C09.f')
+M('c09e-tracker-needs-timestamp', 'C09', 'break', 'htp/htp_connection.c',
+  'void htp_conn_track_inbound_data(htp_conn_t *conn, size_t len, const htp_time_t *timestamp) {\n    if (conn == NULL) return;',
+  'void htp_conn_track_inbound_data(htp_conn_t *conn, size_t len, const htp_time_t *timestamp) {\n    if ((conn == NULL) || (timestamp == NULL)) return;', 'C09.e')
+M('c03c-append-branch-keeps-consume-offset', 'C03', 'break', RQ,
+  '        connp->in_buf_size = len;\n    } else {', '        connp->in_buf_size = len;\n        connp->in_current_consume_offset = connp->in_current_read_offset;\n        return HTP_OK;\n    } else {', 'C03.c',
+  edits=[(RQ, '    // Reset the consumer position.\n    connp->in_current_consume_offset = connp->in_current_read_offset;\n\n    return HTP_OK;\n}\n\n/**\n * Returns to the caller the memory region', '    return HTP_OK;\n}\n\n/**\n * Returns to the caller the memory region'),
+         (RQ, '        connp->in_buf_size = len;\n    } else {', '        connp->in_buf_size = len;\n        // Reset the consumer position.\n        connp->in_current_consume_offset = connp->in_current_read_offset;\n    } else {')])
+M('c17b-status-erased-by-protocol', 'C17', 'break', TX,
+  '    if (tx->response_protocol_number == HTP_PROTOCOL_INVALID) {', '    if (tx->response_protocol_number == HTP_PROTOCOL_INVALID) {\n        tx->response_status_number = HTP_STATUS_INVALID;', 'C17.b')
